@@ -258,7 +258,7 @@ def check_cases(ctx, cases):
                 spelled = os.path.basename(root) + b"/" * (ci % 2)
                 ctx.count("relative-root")
             try:
-                with fs.shuffled_scandir(lrng):
+                with fs.shuffled_scandir(lrng), ctx.time_limit(60):
                     d = Directory.from_disk(path=spelled, path_filter=py_filter(flt, spelled), max_content_length=ml)
             except Exception as e:
                 rec["error"] = str(e)
